@@ -21,6 +21,11 @@ OUTSIDE = {
  "r13-C02-v2": "what a capture limit with a leading zero means is not said",
  "r13-C01-v1": "needs a refused registration: C01 speaks of registered sets (C08 reports it)",
  "r13-C13-v2": "needs a before-function that panics: excluded in C13 (C15 reports it)",
+ "r13-C11-v2": "which half of a refused Get under AutoHead stands is the implementation's business (third review)",
+ "r13-C18-v1": "a query changed after an accessor has read it: an implementation may parse the query once per request (third review)",
+ "r14-C15-v1": "a recovery that waits for the end of the request body is slow, not wrong; the body of the case ends after 300 ms (third review)",
+ "r13-C03-v2": "whether an informational status counts as 'written' is C13's to say (third review; C13 reports it)",
+ "r14-C03-v2": "whether a Write of no bytes counts as 'written' is C13's to say (third review; C13 reports it)",
  "r14-C01-v1": "the defect is in Group: C01 registers flat route sets (C11 reports it)",
  "r14-C01-v2": "needs a refused registration: C01 speaks of registered sets (C08 reports it)",
  "r14-C03-v1": "needs a before-function that panics: none in C03 (C13 and C15 report it)",
